@@ -236,7 +236,13 @@ func (g *Galaxy) resolveNetworks(req *galaxyapi.PodRequest, pod *corev1.Pod) ([]
 
 func (g *Galaxy) getNetworkConf(networkName string) (map[string]interface{}, error) {
 	if netConf, ok := g.netConf[networkName]; ok {
-		return netConf, nil
+		// hand out a copy, CmdAdd stores the prevResult of the previous delegate in the conf it is given and the
+		// configured map is shared by all requests
+		copied := make(map[string]interface{}, len(netConf))
+		for k, v := range netConf {
+			copied[k] = v
+		}
+		return copied, nil
 	}
 	// In the absence of existing network config from json
 	// config, load and execute a CNI .configlist
